@@ -27,6 +27,9 @@ package strategy
 //@   ensures nowrite_if_equal: len(newVal) > 0 && seqEq(newVal, oldVal) ==> ghost_nput == old(ghost_nput) && ghost_ndel == old(ghost_ndel) && ghost_dirty == old(ghost_dirty)
 //@   ensures put_otherwise: len(newVal) > 0 && !seqEq(newVal, oldVal) ==> ghost_nput == old(ghost_nput) + 1 && ghost_ndel == old(ghost_ndel)
 //@   ensures dirty_only_set: ghost_dirty == old(ghost_dirty) || ghost_dirty == 1
+//@   after_call lmdb.(*Txn).Del#0 ghost loc_delAbsent := ite(lmdb.IsNotFound(ret0), 1, 0)
+//@   ensures deleting_an_absent_key_is_no_error: len(newVal) == 0 && ghost_loc_delAbsent == 1 ==> r0 == nil
+//@   ensures unchanged_value_is_no_error: len(newVal) > 0 && seqEq(newVal, oldVal) ==> r0 == nil
 
 // The point-update strategy: for every key the iterator delivers, the stored
 // value is looked up, handed to Merge, and exactly Merge's result for exactly
@@ -95,10 +98,40 @@ package strategy
 //@   modifies ghost_dirty, ghost_nput, ghost_ndel
 //@   ensures dirty_only_set: ghost_dirty == old(ghost_dirty) || ghost_dirty == 1
 
+// EmptyPut empties the DBI (without deleting it) and then writes every input
+// key with doPut in "database was empty" mode.
 //@ func EmptyPut
 //@   trusted
 //@   modifies ghost_dirty, ghost_nput, ghost_ndel
 //@   ensures dirty_only_set: ghost_dirty == old(ghost_dirty) || ghost_dirty == 1
+//@   at_call lmdb.(*Txn).Drop#0 assert empties_that_dbi_only: arg1 == dbi && !arg2
+//@   at_call strategy.doPut#0 assert writes_into_the_emptied_dbi: arg1 == dbi && arg3 && arg2 == it
+
+//@ func Put
+//@   trusted
+//@   modifies ghost_dirty, ghost_nput, ghost_ndel
+//@   at_call strategy.doPut#0 assert overwrites_in_place: arg1 == dbi && !arg3 && arg2 == it
+
+// doPut, per input key: the key is merged with nothing; a non-empty result is
+// stored under exactly that key; an empty result (a deleted entry) is never
+// stored: the key is deleted, or left absent when the DBI was emptied before.
+//@ func doPut
+//@   noswallow except strategy.Iterator.Next, lmdb.(*Txn).Del
+//@   modifies ghost_dirty, ghost_nput, ghost_ndel, ghost_itCount, ghost_mergeTouched
+//@   after_call strategy.Iterator.Next#0 ghost loc_kArr := arrayOf(ret0)
+//@   after_call strategy.Iterator.Next#0 ghost loc_kOff := offsetOf(ret0)
+//@   after_call strategy.Iterator.Next#0 ghost loc_kLen := len(ret0)
+//@   after_call strategy.Iterator.Merge#0 ghost loc_vArr := arrayOf(ret0)
+//@   after_call strategy.Iterator.Merge#0 ghost loc_vOff := offsetOf(ret0)
+//@   after_call strategy.Iterator.Merge#0 ghost loc_vLen := len(ret0)
+//@   at_call strategy.Iterator.Merge#0 assert merged_with_nothing: len(arg1) == 0
+//@   at_call lmdb.(*Txn).Put#0 assert stores_the_merge_result_under_the_delivered_key: arg1 == dbi && arrayOf(arg2) == ghost_loc_kArr && offsetOf(arg2) == ghost_loc_kOff && uint64(len(arg2)) == ghost_loc_kLen && arrayOf(arg3) == ghost_loc_vArr && offsetOf(arg3) == ghost_loc_vOff && uint64(len(arg3)) == ghost_loc_vLen && arg4 == 0
+//@   at_call lmdb.(*Txn).Put#0 assert never_stores_an_empty_result: len(arg3) > 0
+//@   at_call lmdb.(*Txn).Del#0 assert deletes_the_delivered_key: arg1 == dbi && arrayOf(arg2) == ghost_loc_kArr && offsetOf(arg2) == ghost_loc_kOff && uint64(len(arg2)) == ghost_loc_kLen && !isEmpty
+//@   loop 0 ghost loc_np0 := ghost_nput
+//@   loop 0 ghost loc_nd0 := ghost_ndel
+//@   loop 0 invariant not_failed: ghost_loc_failed == 0
+//@   loop 0 step one_write_per_key: (ghost_loc_vLen != 0 ==> ghost_nput == ghost_loc_np0 + 1 && ghost_ndel == ghost_loc_nd0) && (ghost_loc_vLen == 0 ==> ghost_nput == ghost_loc_np0 && ghost_ndel == ghost_loc_nd0 + ite(isEmpty, 0, 1))
 
 // iterBoth walks the iterator and the LMDB cursor in the DBI's key order.
 // Valid input is never rejected: the "keys not sorted" error is only returned
